@@ -50,6 +50,14 @@ def handle : List String → String
       let ctx := if kind == "std" then stdCtx documented u else userCtx documented u
       if matchTag ctx t then "1" else "0"
     | _, _ => "bad-op"
+  | ["ctxtags", tags] =>          -- the context `goCtx` builds for a user tag list (text form of the tags)
+    match parseTags tags with
+    | some u =>
+      let c := userCtx documented u
+      let render : Tag → String := fun t => match t with | .named s => s | .rel n => s!"go1.{n}"
+      let bt := c.buildTags.map render
+      s!"{if bt.isEmpty then "-" else ",".intercalate bt} rel={c.releaseTags.length} cgo={c.cgoEnabled} {c.goos}/{c.goarch}/{c.compiler}"
+    | none => "bad-op"
   | _ => "bad-op"
 
 end GV.Driver.C18
